@@ -46,6 +46,7 @@ struct Out {
     Cls cls = BIT; uint64_t h = 0;
     bool spgemm = false;            // depends on product(): bitwise only inside a SpGEMM algorithm group
     bool formdep = false;           // ILU: bitwise only inside {t < 4} / {t >= 4}
+    bool has_pattern = false; uint64_t hp = 0;   // pattern digest that must agree even across the SpGEMM switch (first coarse operator)
     bool exact_on_integer = false;  // every sum is exact on integer-valued input: bitwise even across the SpGEMM switch
     std::vector<double> vals;       // values for rounding comparisons (ROUND, and BIT outputs that may legitimately differ across a switch)
     std::vector<double> atol;       // per-value absolute tolerance (size 1 = same for all)
@@ -68,10 +69,30 @@ static const char *COARS[] = {"aggregation", "smoothed_aggregation", "ruge_stube
 static const char *RELAX[] = {"damped_jacobi", "spai0", "spai1", "gauss_seidel", "chebyshev", "ilu0", "iluk", "ilup", "ilut"};
 static const char *SOLV[]  = {"cg", "bicgstab", "bicgstabl", "gmres", "lgmres", "fgmres", "idrs", "richardson"};
 
+// forward rounding bound of the Galerkin product per stored entry of Ac = R A P:
+//   |fl(Ac_ij) - Ac_ij| <= (kR + kA + kP + 3) u (|R||A||P|)_ij  for every order of summation (kX = longest row of X),
+// so two correct SpGEMM algorithms differ by at most twice that.
+static std::vector<double> galerkin_bound(const M &R, const M &A, const M &P, const M &Ac) {
+    size_t nc = Ac.nrows; std::vector<double> acc(Ac.ncols, 0.0), out(nc ? Ac.ptr[nc] : 0, 0.0); size_t kR = 0, kA = 0, kP = 0;
+    for (size_t i = 0; i < R.nrows; ++i) kR = std::max<size_t>(kR, R.ptr[i + 1] - R.ptr[i]);
+    for (size_t i = 0; i < A.nrows; ++i) kA = std::max<size_t>(kA, A.ptr[i + 1] - A.ptr[i]);
+    for (size_t i = 0; i < P.nrows; ++i) kP = std::max<size_t>(kP, P.ptr[i + 1] - P.ptr[i]);
+    double fac = 2.0 * (double)(kR + kA + kP + 3) * U;
+    for (size_t i = 0; i < nc && i < R.nrows; ++i) {
+        for (int pass = 0; pass < 2; ++pass) {
+            if (pass == 1) for (auto j = Ac.ptr[i]; j < Ac.ptr[i + 1]; ++j) out[j] = fac * acc[Ac.col[j]];
+            for (auto jr = R.ptr[i]; jr < R.ptr[i + 1]; ++jr) { auto k = R.col[jr]; double rv = std::fabs(R.val[jr]);
+                for (auto ja = A.ptr[k]; ja < A.ptr[k + 1]; ++ja) { auto l = A.col[ja]; double av = rv * std::fabs(A.val[ja]);
+                    for (auto jp = P.ptr[l]; jp < P.ptr[l + 1]; ++jp) { if (pass == 0) acc[P.col[jp]] += av * std::fabs(P.val[jp]); else acc[P.col[jp]] = 0; } } }
+        }
+    }
+    return out;
+}
+
 static void hierarchy_outputs(Outs &o, const Input &in, const std::string &coars, const std::string &name, ptree p, bool bitclass) {
     p.put("coarsening.type", coars); p.put("relax.type", "spai0"); p.put("coarse_enough", 40);
     AMG amg(in.A.tie(), p);
-    int l = 0;
+    int l = 0; std::shared_ptr<M> pA, pP, pR;
     for (auto &lvl : ACC::levels(amg)) {
         ++l; std::string pre = "hier." + name + ".L" + std::to_string(l);
         auto put = [&](const char *w, const std::shared_ptr<M> &X, bool dep) {
@@ -86,6 +107,10 @@ static void hierarchy_outputs(Outs &o, const Input &in, const std::string &coars
             o[pre + "." + w] = q; };
         put("A", lvl.A, l > 1); put("P", lvl.P, l > 1 || !bitclass); put("R", lvl.R, l > 1 || !bitclass);
         if (!bitclass) break;       // deeper levels of the rounding class may legitimately take different discrete decisions
+        // first coarse operator: across the SpGEMM switch its pattern must be identical and its values within the Galerkin rounding bound
+        // (deeper levels may legitimately take different discrete coarsening decisions after a last-bit change and are only reported as F5)
+        if (l == 2 && lvl.A && pA && pP && pR) { Out &q = o[pre + ".A"]; q.has_pattern = true; q.hp = vf::crs_hash(*lvl.A, false); q.vals = crs_vals(*lvl.A); q.atol = galerkin_bound(*pR, *pA, *pP, *lvl.A); if (q.atol.size() != q.vals.size()) q.atol.assign(1, 0.0); }
+        pA = lvl.A; pP = lvl.P; pR = lvl.R;
     }
     Out nl; nl.h = (uint64_t)l; nl.spgemm = true; o["hier." + name + ".levels"] = nl; if (!bitclass) o["hier." + name + ".levels"].cls = INFO;
 }
@@ -211,6 +236,7 @@ static void compare(Cmp &k, const std::string &name, int ta, const Out &a, int t
     if (cross_group || cross_form) {
         // design finding F5: one stable key per output family (direct product / hierarchy / cycle), the output name goes into the detail
         if (cross_group) k.fail(std::string(name.compare(0, 5, "hier.") == 0 ? "hierarchy" : name.compare(0, 6, "cycle.") == 0 ? "cycle" : "product") + ":saad-vs-rmerge-rounding", "output differs bitwise between <= 16 and > 16 threads (product() switches from the marker algorithm to row-merge)", d);
+        if (cross_group && (a.has_pattern || b.has_pattern) && a.hp != b.hp) k.fail(name.substr(0, name.find(".L")) + ":pattern-differs-across-spgemm-switch", "first coarse operator has a different sparsity pattern below and above 16 threads (rounding cannot change a pattern)", d);
         if (!a.vals.empty()) { double md = 0, ex = max_excess(a, b, &md); vf::obs_max(cross_group ? "across_spgemm_switch_max_diff_over_bound" : "ilu_across_form_max_diff_over_bound", ex);
             if (!(ex <= 1)) k.fail(name + (cross_group ? ":beyond-rounding-across-spgemm-switch" : ":beyond-rounding-across-form") + a.tag, "difference across the algorithm switch exceeds the rounding bound", J(d).n("excess", ex).n("max_abs_diff", md)); }
         return;
